@@ -26,6 +26,31 @@ using verif::Tape;
 
 namespace {
 
+// The same observables as oracle::Fingerprint, but with every triangle rotated so that its smallest
+// vertex index comes first (and without the corner-ordered tangents): equal under this fingerprint and
+// different under the exact one means "the same mesh up to the starting corner of some triangles".
+uint64_t FingerprintRot(const Manifold& m) {
+  uint64_t h = 1469598103934665603ull;
+  h = oracle::HI(uint64_t(m.Status()), h);
+  h = oracle::HD(m.GetTolerance(), h);
+  h = oracle::HI(m.NumVert(), h); h = oracle::HI(m.NumEdge(), h); h = oracle::HI(m.NumTri(), h); h = oracle::HI(m.NumProp(), h);
+  MeshGL64 g = m.GetMeshGL64();
+  auto rot = [](auto& tv) { for (size_t i = 0; i + 2 < tv.size(); i += 3) { int k = tv[i] <= tv[i + 1] ? (tv[i] <= tv[i + 2] ? 0 : 2) : (tv[i + 1] <= tv[i + 2] ? 1 : 2); auto a = tv[i + k], b = tv[i + (k + 1) % 3], c = tv[i + (k + 2) % 3]; tv[i] = a; tv[i + 1] = b; tv[i + 2] = c; } };
+  rot(g.triVerts);
+  h = oracle::HI(g.numProp, h);
+  h = oracle::HV(g.vertProperties, h); h = oracle::HV(g.triVerts, h); h = oracle::HV(g.mergeFromVert, h); h = oracle::HV(g.mergeToVert, h);
+  h = oracle::HV(g.runIndex, h); h = oracle::HV(g.runTransform, h); h = oracle::HV(g.runFlags, h); h = oracle::HV(g.faceID, h);
+  std::map<uint32_t, uint32_t> relabel;
+  std::vector<uint32_t> ids;
+  for (auto id : g.runOriginalID) ids.push_back(relabel.emplace(id, uint32_t(relabel.size())).first->second);
+  h = oracle::HV(ids, h);
+  MeshGL f = m.GetMeshGL();
+  rot(f.triVerts);
+  h = oracle::HV(f.vertProperties, h); h = oracle::HV(f.triVerts, h);
+  return h;
+}
+std::vector<uint64_t> gRotFp;  // filled by RunProgram next to the exact fingerprints (3D values only)
+
 // executes the program encoded by the tape; returns fingerprints of every value
 std::vector<uint64_t> RunProgram(Tape t, std::ostream& d, std::string& sizeClass) {
   std::vector<uint64_t> fp;
@@ -66,7 +91,8 @@ std::vector<uint64_t> RunProgram(Tape t, std::ostream& d, std::string& sizeClass
       int steps = t.range(2, 10);
       for (int s = 0; s < steps; ++s) gen::Step(t, pool, d, opt);
     }
-    for (auto& v : pool.v) fp.push_back(oracle::Fingerprint(v.m, true));
+    gRotFp.clear();
+    for (auto& v : pool.v) { fp.push_back(oracle::Fingerprint(v.m, true)); gRotFp.push_back(FingerprintRot(v.m)); }
   } else if (mode <= 8) {
     // CrossSection programs, incl. > 1024 edges (BVH broad phase)
     bool big = t.chance(96);
@@ -188,7 +214,20 @@ void Body(Tape& t, Outcome& o) {
     std::string out;
     if (p) { char buf[4096]; size_t k; while ((k = fread(buf, 1, sizeof buf, p)) > 0) out.append(buf, k); pclose(p); }
     unlink(path);
-    std::string want = "FP " + Hex(base) + "\n";
+    const std::string wantFP = "FP " + Hex(base) + "\n";
+    const std::string outFP = out.substr(0, out.find('\n') == std::string::npos ? out.size() : out.find('\n') + 1);
+    std::string want = out;  // equal unless the exact fingerprints differ
+    if (outFP != wantFP) {
+      gRotFp.clear();
+      { std::string c3; std::ostringstream s3; (void)RunProgram(prog, s3, c3); }  // rotation-normalised fingerprints of this backend
+      want = wantFP + "FN " + Hex(gRotFp) + "\n";
+      if (!gRotFp.empty() && out.size() > outFP.size() && out.substr(outFP.size()) == want.substr(wantFP.size())) {
+        // known finding F47: the backends export the same mesh but start some triangle at another corner
+        o.known("F47-backend-triangle-rotation", "determinism:backend-triangle-rotation", "the serial-backend build exports the same triangles with a different starting corner");
+        return;
+      }
+    }
+    if (out != want && getenv("VERIF_DEBUG")) fprintf(stderr, "THIS %sSEQ  %s", want.c_str(), out.c_str());
     if (out != want) { o.fail("determinism:backend", "the serial-backend build (MANIFOLD_PAR=-1, separate process) produced different bytes"); return; }
     d << " ; vs seq backend";
   }
@@ -206,7 +245,9 @@ int main(int argc, char** argv) {
     Tape t(tape.data(), tape.size());
     std::ostringstream sink;
     std::string cls;
+    gRotFp.clear();
     printf("FP %s\n", Hex(RunProgram(t, sink, cls)).c_str());
+    printf("FN %s\n", Hex(gRotFp).c_str());
     return 0;
   }
   verif::Config cfg{"C04", "determinism",
